@@ -540,7 +540,17 @@ def check_linear_normalize(ctx: Ctx) -> None:
     ctx.ob("1.8-flag", con, ok, "the normalised linear function must declare expects_normalized_inputs = True", node=flag[0] if flag else f, stmt="expects_normalized_inputs = True")
 
 
+def check_equal_bounds(ctx: Ctx) -> None:
+    """1.6: a component with equal bounds is inert: the affine maps of DesignSpace (C02 rule 2.7) are part of this property."""
+    from gv.props import c02
+    from gv.props.c12 import _Prefixed
+
+    ds = ctx.index.cls(DS, "DesignSpace")
+    c02.check_affine_ops(_Prefixed(ctx, "1.6-inert/"), c02.View(ctx, ds))
+
+
 def run(ctx: Ctx) -> None:
+    check_equal_bounds(ctx)
     roles = compute_roles(ctx)
     memo = {m: r for m, r in roles.items() if r["db"]}
     ctx.need(len(memo) == 4, f"expected four memoising compute methods, found {sorted(memo)}")
@@ -573,6 +583,7 @@ def run(ctx: Ctx) -> None:
 
 _EP = "algos/evaluation_problem.py"
 WITNESSES = [
+    {"name": "zero-range-replaced-in-both-directions", "file": DS, "old": "        self._norm_factor = self.__upper_bounds_array - self.__lower_bounds_array\n", "new": "        self._norm_factor = self.__upper_bounds_array - self.__lower_bounds_array\n        self._norm_factor = where(self._norm_factor == 0.0, 1.0, self._norm_factor)\n", "expect": "1.6"},
     {"name": "drop-normalize_grad", "file": _EP, "old": "jac_seq = (ds.unnormalize_vect, function.jac, *args, ds.normalize_grad)", "new": "jac_seq = (ds.unnormalize_vect, function.jac, *args)", "expect": "1.1"},
     {"name": "swap-unnormalize-round", "file": _EP, "old": "func_seq = (ds.unnormalize_vect, ds.round_vect, function.func)", "new": "func_seq = (ds.round_vect, ds.unnormalize_vect, function.func)", "expect": "1.1"},
     {"name": "expects-false-in-normalising-branch", "file": _EP, "old": "        elif is_function_input_normalized:\n            expects_normalized_inputs = True", "new": "        elif is_function_input_normalized:\n            expects_normalized_inputs = False", "expect": "1.1"},
